@@ -397,6 +397,14 @@ func routeOnce(c *Case, rows []Metric, check bool, scen string) (batch *metric.B
 	return batch, true
 }
 
+func shardsOf(gs []group) string {
+	var out []string
+	for _, g := range gs {
+		out = append(out, fmt.Sprintf("shard=%d", g.Shard))
+	}
+	return strings.Join(out, ",")
+}
+
 func tsNames(rows []Metric) []string {
 	var out []string
 	for _, r := range rows {
@@ -479,7 +487,7 @@ func routeOnceReuse(c *Case, prev *metric.BrokerBatchRows, scen string) (*metric
 var (
 	names      = []string{"a", "a b", "é", `a,b=c\`, `x\y,z`}
 	limitNames = []string{"sevench", "toolong_8"} // 7 and 9 bytes: just over / well over the tight limit of 6 (`a,b=c\` is exactly 6)
-	tagVals    = []string{"v0", "x y", "p=q,r", "ü"}
+	tagVals    = []string{"v0", "x y", "p=q,r", "ü", "v4"}
 	// key symbols of the tag alphabet; "" is an invalid key, "rack" carries an empty (invalid) value
 	tagKeys = []string{"host", "zone", "é", "", "rack"}
 )
@@ -581,7 +589,7 @@ func smallTagLists() [][]Tag {
 		{{"host", "v0"}},
 		{{"zone", "x y"}, {"host", "v0"}},
 		{{"host", "v0"}, {"host", "p=q,r"}},
-		{{"hosts", "v0"}},  // key of 5 bytes: over the tight limit of 4
+		{{"hosts", "v0"}},    // key of 5 bytes: over the tight limit of 4
 		{{"host", "sixsix"}}, // value of 6 bytes: over the tight limit of 5
 		{{"host", "v0"}, {"zone", "v1"}, {"é", "v2"}},    // 3 tags: over the tight limit of 2
 		{{"host", "v0"}, {"host", "v1"}, {"zone", "v2"}}, // 3 before, 2 after de-duplication
@@ -615,33 +623,24 @@ func forEachRowCase(thorough bool, f func(c *Case) bool) {
 		m := &Metric{Name: name, NS: ns.row, TS: ts, Tags: tags, Fields: fl.fields, Hist: fl.hist}
 		return f(&Case{Stage: "row", Ctx: Ctx{ReqNS: ns.req, Enriched: enr, Limits: lim, Precision: "ms"}, Encs: encs, M: m})
 	}
+	allNames := append(append([]string{""}, names...), limitNames...)
+	allNS := []nsPair{{"", ""}, {"", "rq"}, {"é", ""}, {"é", "rq"}, {"a b", ""}, {"twelve_bytes", "rq"}, {"", "twelve_bytes"}}
+	allTS := []TS{{"abs", absTS}, {"zero", 0}, {"abs", -1}}
+	allLim := []LimitsSpec{limDefault, limOff, limTight}
+	// product 1 (tag heavy): every tag multiset of <=4 tags in every order x names x field lists
+	p1NS := []nsPair{{"", "rq"}, {"é", ""}}
+	p1FL := flIdx("sum", "all5", "hist+sum")
+	p1Lim := []LimitsSpec{limDefault, limTight}
 	if thorough {
-		// the full product
-		for _, name := range append(append([]string{""}, names...), limitNames...) {
-			for _, ns := range []nsPair{{"", ""}, {"", "rq"}, {"é", ""}, {"é", "rq"}, {"a b", ""}, {"twelve_bytes", "rq"}, {"", "twelve_bytes"}} {
-				for _, tags := range append(tagMultisets(len(tagKeys), 4), smallTagLists()[4:]...) {
-					for _, fl := range fls {
-						for _, ts := range []TS{{"abs", absTS}, {"zero", 0}, {"abs", -1}} {
-							for _, lim := range []LimitsSpec{limDefault, limOff, limTight} {
-								for _, enr := range enrichedAlts {
-									if !emit(name, ns, tags, fl, ts, lim, enr) {
-										return
-									}
-								}
-							}
-						}
-					}
-				}
-			}
-		}
-		return
+		p1NS = []nsPair{{"", "rq"}, {"é", ""}, {"", ""}, {"é", "rq"}}
+		p1FL = fls
+		p1Lim = allLim
 	}
-	// quick, product 1: every tag multiset (all orders) x names x a few field lists
 	for _, name := range names {
-		for _, ns := range []nsPair{{"", "rq"}, {"é", ""}} {
+		for _, ns := range p1NS {
 			for _, tags := range tagMultisets(len(tagKeys), 4) {
-				for _, fl := range flIdx("sum", "all5", "hist+sum") {
-					for _, lim := range []LimitsSpec{limDefault, limTight} {
+				for _, fl := range p1FL {
+					for _, lim := range p1Lim {
 						for _, enr := range enrichedAlts {
 							if !emit(name, ns, tags, fl, TS{"abs", absTS}, lim, enr) {
 								return
@@ -652,18 +651,43 @@ func forEachRowCase(thorough bool, f func(c *Case) bool) {
 			}
 		}
 	}
-	// quick, product 2: every field list x names (incl. empty and over-limit) x namespaces x timestamps x limits
-	for _, name := range append(append([]string{""}, names...), limitNames...) {
-		for _, ns := range []nsPair{{"", ""}, {"", "rq"}, {"é", ""}, {"é", "rq"}, {"a b", ""}, {"twelve_bytes", "rq"}, {"", "twelve_bytes"}} {
-			for _, tags := range smallTagLists() {
+	// product 2 (field heavy): every field list x every name (incl. empty, over the limit) x namespaces x
+	// timestamps x limits over a small set of tag lists (thorough: plus every multiset of <=2 tags)
+	p2Tags := smallTagLists()
+	if thorough {
+		p2Tags = append(p2Tags, tagMultisets(len(tagKeys), 2)...)
+	}
+	for _, name := range allNames {
+		for _, ns := range allNS {
+			for _, tags := range p2Tags {
 				for _, fl := range fls {
-					for _, ts := range []TS{{"abs", absTS}, {"zero", 0}, {"abs", -1}} {
-						for _, lim := range []LimitsSpec{limDefault, limOff, limTight} {
+					for _, ts := range allTS {
+						for _, lim := range allLim {
 							for _, enr := range enrichedAlts {
 								if !emit(name, ns, tags, fl, ts, lim, enr) {
 									return
 								}
 							}
+						}
+					}
+				}
+			}
+		}
+	}
+	if !thorough {
+		return
+	}
+	// product 3 (thorough): multisets of exactly 5 tags in every order (120 orders each)
+	for _, name := range []string{"a b", `x\y,z`} {
+		for _, tags := range tagMultisets(len(tagKeys), 5) {
+			if len(tags) != 5 {
+				continue
+			}
+			for _, fl := range flIdx("sum", "hist+sum") {
+				for _, lim := range []LimitsSpec{limDefault, limTight} {
+					for _, enr := range enrichedAlts {
+						if !emit(name, nsPair{"", "rq"}, tags, fl, TS{"abs", absTS}, lim, enr) {
+							return
 						}
 					}
 				}
@@ -697,13 +721,13 @@ func rowKinds() []Metric {
 		return Metric{Name: "cpu", Tags: tags, Fields: append([]Field{sf("f_sum", tSum, 0)}, extra...)}
 	}
 	return []Metric{
-		mk([]Tag{{"host", "a"}, {"zone", "z"}}),               // K0
-		mk([]Tag{{"zone", "z"}, {"host", "a"}}),               // K1 = K0 in another tag order
-		mk([]Tag{{"host", "b"}}),                              // K2
-		mk([]Tag{{"host", "b"}, {"zone", ""}}),                // K3 invalid: empty tag value
-		mk(nil),                                               // K4 no tags
-		mk([]Tag{{"é", "ü"}, {"zone", "z"}, {"host", "a"}}),   // K5
-		mk([]Tag{{"host", "a"}, {"host", "c"}}),               // K6 duplicate key
+		mk([]Tag{{"host", "a"}, {"zone", "z"}}),              // K0
+		mk([]Tag{{"zone", "z"}, {"host", "a"}}),              // K1 = K0 in another tag order
+		mk([]Tag{{"host", "b"}}),                             // K2
+		mk([]Tag{{"host", "b"}, {"zone", ""}}),               // K3 invalid: empty tag value
+		mk(nil),                                              // K4 no tags
+		mk([]Tag{{"é", "ü"}, {"zone", "z"}, {"host", "a"}}),  // K5
+		mk([]Tag{{"host", "a"}, {"host", "c"}}),              // K6 duplicate key
 		mk([]Tag{{"host", "d"}}, sf("g_last", tLast, nan())), // K7 invalid: NaN in the second field
 	}
 }
@@ -829,23 +853,32 @@ func buildReferences() {
 			continue
 		}
 		for sh := 1; sh <= 8; sh++ {
+			route := Route{Shards: sh, Interval: "10s"}
+			rc := &Case{Stage: "batch", Ctx: ctx, Route: &route, Rows: []Metric{k}}
 			batch := parseBatch(&ctx, mark([]Metric{k}), []int64{clockNow()})
 			if batch == nil || batch.Len() != 1 {
-				vevid.Fatal("reference: row kind %v was not accepted alone", k.Tags)
+				violate(rc, "valid-accepted", "batch/proto", siteOf("proto"), fmt.Sprintf("row kind %v was not accepted when sent alone", k.Tags))
+				continue
 			}
-			groups, err := rt.write(Route{Shards: sh, Interval: "10s"}, batch)
+			groups, err := rt.write(route, batch)
 			drainPool(batch)
-			if err != nil || len(groups) != 1 {
-				vevid.Fatal("reference: row kind %v alone with %d shards: err=%v groups=%d", k.Tags, sh, err, len(groups))
+			if err != nil || len(groups) != 1 || groups[0].Shard < 0 || groups[0].Shard >= sh {
+				violate(rc, "shard-below-count", "batch/proto", "metric.BrokerBatchRows.NewShardGroupIterator",
+					fmt.Sprintf("one row %v sent alone with %d shards: Write error %v, groups %d %s", k.Tags, sh, err, len(groups), shardsOf(groups)))
+				continue
 			}
 			st := readBlock(groups[0].Block)
 			if len(st) != 1 {
-				vevid.Fatal("reference: row kind %v alone: %d rows written", k.Tags, len(st))
+				violate(rc, "exactly-one-group", "batch/proto", "replica.databaseChannel.Write", fmt.Sprintf("one row %v sent alone: %d rows written", k.Tags, len(st)))
+				continue
 			}
 			key := tagsKey(st[0].Tags)
 			refHash[key] = st[0].TagsHash
 			refShard[fmt.Sprintf("%s#%d", key, sh)] = groups[0].Shard
 		}
+	}
+	if rep.ViolationCount > 0 {
+		return // the routing of single rows is already broken; the enumeration below reports the rest
 	}
 	// vacuity: the valid kinds must spread over more than one shard for some shard count
 	shards := map[int]bool{}
@@ -897,7 +930,7 @@ func main() {
 		"stage batch: every sequence of <=3 rows (row kind x symbolic timestamp at the exact window edges, edges+-1ms, family start, family start-1ms) x shard count x write window x interval x encoding through the real ChannelManager.Write; " +
 		"stage pool: every pair of consecutive requests (<=2 rows, then <=3 rows) re-using the pooled batch. " +
 		"non-trivial = a metric with >=2 tags (order matters) or a batch with >=2 rows; distinct = distinct (input bytes, configuration)"
-	rep.Bounds["max_tags"] = 4
+	rep.Bounds["max_tags"] = map[string]int{"quick": 4, "thorough": 5}[f.Tier]
 	rep.Bounds["max_batch_rows"] = 3
 	rep.Bounds["shard_counts"] = "1..8"
 	rep.Bounds["windows(behind,ahead)"] = windows
